@@ -1,11 +1,13 @@
 #!/usr/bin/env python3
-"""seeded.py eval SRC_DIR ID PROP [--thorough]
+"""seeded.py eval SRC_DIR ID PROP [--thorough] [--also Cxx,Cyy]
 
 Confirms one seeded change and runs the checks against it, in a scratch worktree of /repo:
   1. the patch applies to /repo's HEAD and the tree builds,
   2. the demonstration passes without the patch and fails with it,
   3. the existing test suite (the packages that are not flaky on the unchanged tree) still passes,
-  4. ./check PROP (quick; thorough with --thorough when quick misses) reports a violation or not.
+  4. ./check PROP (quick; thorough with --thorough when quick misses) reports a violation or not;
+     when it does not and --also names other properties, their quick checks are run as well (a change
+     written against one property may break the behaviour that another property's check observes).
 Writes /verif/seeded/ID/{patch.diff, demo/, meta.json} and removes the worktree.
 """
 import json, os, shutil, subprocess, sys, time
@@ -13,6 +15,7 @@ import json, os, shutil, subprocess, sys, time
 ENV = dict(os.environ)
 ENV.update({"GOFLAGS": "-mod=mod", "GOPROXY": "off", "GOSUMDB": "off", "GOTOOLCHAIN": "local"})
 ROOT = "/verif"
+also = []
 FAST = "./gen/... ./lib/... ./meta/... ./net/... ./node/... ./act/... ./testing/unit/... ./testing/tests/002_distributed/..."
 
 
@@ -32,6 +35,8 @@ def sh(cmd, cwd, timeout, netns=False):
 def main():
     src, sid, prop = sys.argv[2], sys.argv[3], sys.argv[4]
     thorough = "--thorough" in sys.argv
+    global also
+    also = sys.argv[sys.argv.index("--also") + 1].split(",") if "--also" in sys.argv else []
     wt = "/tmp/sw/" + sid
     out = os.path.join(ROOT, "seeded", sid)
     res = {"id": sid, "property": prop, "ran": []}
@@ -101,6 +106,15 @@ def main():
             res["ran"].append("VERIF_REPO=<worktree with the patch> ./check %s --tier %s" % (prop, tier))
             if p.returncode == 1:
                 break
+        if not any(res.get("check_" + t, {}).get("exit") == 1 for t in ("quick", "thorough")):
+            for other in also:
+                t0 = time.time()
+                p = subprocess.run(["./check", other, "--tier", "quick"], cwd=ROOT, env=e, stdout=subprocess.PIPE, stderr=subprocess.STDOUT, text=True)
+                viol = [l[:700] for l in p.stdout.splitlines() if l.startswith("VIOLATION")]
+                res.setdefault("other_checks", {})[other] = {"exit": p.returncode, "s": round(time.time() - t0, 1), "violations": viol[:3]}
+                res["ran"].append("VERIF_REPO=<worktree with the patch> ./check %s --tier quick" % other)
+                if p.returncode == 1:
+                    break
         return finish(res, out, src, "/tmp/sw/%s.applied.diff" % sid)
     finally:
         subprocess.run(["git", "-C", "/repo", "worktree", "remove", "--force", wt], stderr=subprocess.DEVNULL)
@@ -121,6 +135,9 @@ def finish(res, out, src, applied):
         c = res.get("check_" + tier)
         if c and c["exit"] == 1:
             caught = tier
+    for other, c in res.get("other_checks", {}).items():
+        if caught is None and c["exit"] == 1:
+            caught = "quick (check of %s)" % other
     res["caught_by"] = caught
     os.makedirs("/tmp/sw/results", exist_ok=True)
     json.dump(res, open("/tmp/sw/results/%s.json" % res["id"], "w"), indent=1)
